@@ -274,6 +274,62 @@ fn run_within_any(limit: u32, opcode: u8, split: u8) -> Result<Option<(String, S
     Ok(None)
 }
 
+/// Two clients discard oversized bodies at the same time: A has sent its header and part of the
+/// body and pauses; B sends a whole oversized request (header first, body later) and a follower
+/// and must be answered while A is still in the middle of its body; then A finishes.
+fn run_two_clients(limit: u32, opcode: u8, b_split: u8) -> Result<Option<(String, String)>, String> {
+    let mk = |opq: u32| {
+        let c = Case { limit, body_len: limit + 5000, opcode, position: 0, b: 0, pregrown: false, shape: 0 };
+        let mut r = oversized_req(&c);
+        r.opaque = opq;
+        r.bytes()
+    };
+    let (abytes, bbytes) = (mk(0xaa01), mk(0xbb01));
+    let w = net::NetWorld::new(NetCfg { item_limit: limit, ..Default::default() })?;
+    let mut a = w.connect()?;
+    let mut b = w.connect()?;
+    let _ = a.step(&w, &abytes[..24 + 1000]);
+    match b_split {
+        0 => {
+            let _ = b.step(&w, &bbytes[..24]);
+            let _ = b.step(&w, &bbytes[24..]);
+        }
+        _ => {
+            let _ = b.step(&w, &bbytes[..24 + 2000]);
+            let _ = b.step(&w, &bbytes[24 + 2000..]);
+        }
+    }
+    let _ = b.step(&w, &Req::bare(op::NOOP).opaque(0xbb02).bytes());
+    w.settle();
+    b.pump();
+    let name = format!("limit={} op={} client B's body delivered {}", limit, wire::op_name(opcode), if b_split == 0 { "after its header" } else { "in two parts" });
+    let (rb, _) = wire::split_responses(&b.got);
+    let ok_b = rb.len() == 2 && rb[0].status == st::TOO_LARGE && rb[0].opaque == 0xbb01 && rb[1].opcode == op::NOOP && rb[1].opaque == 0xbb02;
+    if !ok_b {
+        return Ok(Some((
+            "oversized-skip|two-clients|second-client-held-up".into(),
+            format!(
+                "{}: while client A pauses in the middle of its own oversized body, client B's oversized request + noop were answered {:?}, expected 0x03 and the noop",
+                name,
+                rb.iter().map(|r| r.short()).collect::<Vec<_>>()
+            ),
+        )));
+    }
+    let _ = a.step(&w, &abytes[24 + 1000..]);
+    let _ = a.step(&w, &Req::bare(op::NOOP).opaque(0xaa02).bytes());
+    w.settle();
+    a.pump();
+    let (ra, _) = wire::split_responses(&a.got);
+    let ok_a = ra.len() == 2 && ra[0].status == st::TOO_LARGE && ra[0].opaque == 0xaa01 && ra[1].opcode == op::NOOP && ra[1].opaque == 0xaa02;
+    if !ok_a {
+        return Ok(Some((
+            "oversized-skip|two-clients|first-client".into(),
+            format!("{}: client A, finishing its body after B was served, was answered {:?}", name, ra.iter().map(|r| r.short()).collect::<Vec<_>>()),
+        )));
+    }
+    Ok(None)
+}
+
 pub fn check(tier: Tier, threads: usize) -> CheckOutcome {
     let t0 = Instant::now();
     let limits: Vec<u32> = if tier == Tier::Quick { vec![1024, 4096, 65536] } else { vec![1024, 4096, 65536, 1 << 20, 4 << 20] };
@@ -344,6 +400,31 @@ pub fn check(tier: Tier, threads: usize) -> CheckOutcome {
             }
         }
     }
+    // two clients in the middle of oversized bodies at once
+    let mut two: Vec<(u32, u8, u8)> = vec![];
+    for &limit in &[1024u32, 65536] {
+        for opc in [op::SET, op::GET, op::APPEND, op::SETQ, op::TOUCH] {
+            for sp in 0..2u8 {
+                two.push((limit, opc, sp));
+            }
+        }
+    }
+    let tres = par_map(&two, threads, |_, (l, o, sp)| run_two_clients(*l, *o, *sp));
+    for ((l, o, sp), r) in two.iter().zip(tres.iter()) {
+        chunks += 6;
+        match r {
+            Err(e) => mach = Some(format!("two clients op {:#x}: {}", o, e)),
+            Ok(Some((sig, what))) => {
+                failing += 1;
+                found.entry(sig.clone()).or_insert(Violation {
+                    signature: sig.clone(),
+                    what: what.clone(),
+                    replay: json!({"engine": "c13", "case": what, "two_clients": true, "limit": l, "opcode": o, "split": sp}),
+                });
+            }
+            Ok(None) => {}
+        }
+    }
     let wres = par_map(&within, threads, |_, (l, o, sp)| run_within_any(*l, *o, *sp));
     for ((l, o, sp), r) in within.iter().zip(wres.iter()) {
         chunks += 2;
@@ -388,6 +469,7 @@ pub fn check(tier: Tier, threads: usize) -> CheckOutcome {
             "evaluations": cases.len() + within.len(),
             "distinct_nontrivial": cases.len() + within.len(),
             "within_limit_any_opcode_scenarios": within.len(),
+            "two_clients_discarding_at_once_scenarios": two.len(),
             "scenarios_failing": failing,
             "limits": limits,
             "samples": samples,
@@ -405,6 +487,15 @@ pub fn check(tier: Tier, threads: usize) -> CheckOutcome {
 }
 
 pub fn replay(v: &serde_json::Value) -> Result<Option<String>, String> {
+    if v["two_clients"].as_bool() == Some(true) {
+        let (l, o, sp) = (v["limit"].as_u64().unwrap_or(1024) as u32, v["opcode"].as_u64().unwrap_or(0) as u8, v["split"].as_u64().unwrap_or(0) as u8);
+        let a = run_two_clients(l, o, sp)?;
+        let b = run_two_clients(l, o, sp)?;
+        if a != b {
+            return Err("two replays of the same scenario differ".into());
+        }
+        return Ok(a.map(|(s, w)| format!("{}: {}", s, w)));
+    }
     if v["within_any"].as_bool() == Some(true) {
         let (l, o, sp) = (v["limit"].as_u64().unwrap_or(1024) as u32, v["opcode"].as_u64().unwrap_or(0) as u8, v["split"].as_u64().unwrap_or(0) as u8);
         let a = run_within_any(l, o, sp)?;
